@@ -84,6 +84,13 @@ ssize_t __real_write(int fd, const void *buf, size_t n);
 int __real_close(int fd);
 int __real_stat(const char *path, struct stat *st);
 
+/* generated command lines must not run external programs (:!cmd, :make, :r !cmd, filters): the child
+ * that would exec exits instead, so that the editor sees a failed command */
+int __wrap_execvp(const char *file, char *const argv[])
+{
+	_exit(127);
+}
+
 int __wrap_open(const char *path, int flags, int mode)
 {
 	if (flags & O_WRONLY) {
